@@ -628,7 +628,7 @@ func unlinkedMark(root j5schema.RootSchema) string {
 // `watchdog` while goroutines are still running.
 const watchdog = 120 * time.Second
 
-var progress atomic.Int64
+var progress, curRound, curPhase atomic.Int64
 
 func childMain(args []string) {
 	if len(args) != 5 {
@@ -645,18 +645,35 @@ func childMain(args []string) {
 	}
 	rng := rand.New(rand.NewPCG(seed, 0xc0c10))
 	total, errCalls, queryCalls, stampedes := 0, 0, 0, 0
+	// the watchdog covers the whole child: preparing the inputs, the concurrent rounds and the
+	// calls alone all go through codecs
+	go func() {
+		last, lastAt := progress.Load(), time.Now()
+		for {
+			time.Sleep(2 * time.Second)
+			if now := progress.Load(); now != last {
+				last, lastAt = now, time.Now()
+			} else if time.Since(lastAt) > watchdog {
+				fmt.Printf("DEADLOCK round %d set %s (%s): no call completed for %s, goroutines still running\n", curRound.Load(), set, []string{"preparing inputs", "concurrent calls", "calls alone"}[curPhase.Load()], watchdog)
+				_ = pprof.Lookup("goroutine").WriteTo(os.Stdout, 1)
+				os.Exit(3)
+			}
+		}
+	}()
 	for round := 0; round < rounds; round++ {
 		ts := pickTargets(set, rng)
 		if len(ts) == 0 {
 			continue
 		}
-		// inputs: built with a codec of their own, never the one under test
-		ref := j5codec.NewCodec()
+		// inputs: built with a codec of their own (one per type), never the one under test
+		curRound.Store(int64(round))
+		curPhase.Store(0)
 		for _, t := range ts {
 			m := t.newFn()
 			populate(rng, m, 2)
 			t.msg = m.Interface()
-			if b, err := ref.ProtoToJSON(m); err == nil {
+			progress.Add(1)
+			if b, err := j5codec.NewCodec().ProtoToJSON(m); err == nil {
 				t.json = b
 			} else {
 				t.json = []byte("{}")
@@ -704,25 +721,10 @@ func childMain(args []string) {
 				results[g] = out
 			}(g)
 		}
-		done := make(chan struct{})
-		go func() { wg.Wait(); close(done) }()
+		curPhase.Store(1)
 		close(start)
-		last, lastAt := progress.Load(), time.Now()
-	wait:
-		for {
-			select {
-			case <-done:
-				break wait
-			case <-time.After(2 * time.Second):
-				if now := progress.Load(); now != last {
-					last, lastAt = now, time.Now()
-				} else if time.Since(lastAt) > watchdog {
-					fmt.Printf("DEADLOCK round %d set %s: no call completed for %s, goroutines still running\n", round, set, watchdog)
-					_ = pprof.Lookup("goroutine").WriteTo(os.Stdout, 1)
-					os.Exit(3)
-				}
-			}
-		}
+		wg.Wait()
+		curPhase.Store(2)
 		// what each call returns when run alone: a fresh codec / cache per call
 		expect := map[call]string{}
 		reported := map[string]bool{}
@@ -733,6 +735,7 @@ func childMain(args []string) {
 				if !ok {
 					want = doCall(j5codec.NewCodec(), j5schema.NewSchemaCache(), ts, c)
 					expect[c] = want
+					progress.Add(1)
 				}
 				got := results[g][i]
 				if strings.HasPrefix(want, "err") {
